@@ -37,21 +37,29 @@ def reg_step(m, rnd, kind=None):
     """mutates the model and returns the vexec step"""
     kind = kind or gen.wchoice(rnd, [("fn", 3), ("prefix", 2), ("infix", 4), ("postfix", 2)])
     b = m.beh()
+    if kind == "fn" and rnd.random() < 0.25:
+        # a global function whose handler re-enters the engine while it runs: evaluates a program that calls a global function, or
+        # registers another function (the result is still the tagged one)
+        name = rnd.choice(["reent", "reent2", "f"])
+        m.gfuncs[name] = b
+        m.reent = True  # nested evaluations invoke handlers the model does not count: no fault injection by index from here on
+        act = rnd.choice([{"act": "exec_fresh", "text": "max(1, 2) + sum(3)"}, {"act": "exec_fresh", "text": "other(1)"}, {"act": "reg_fn", "name": "installed%d" % b.id, "beh": {"id": 7, "ret": "last"}}, {"act": "parse", "text": "1 + 2 * q"}])
+        return {"op": "reg_fn", "name": name, "beh": dict(b.to_json(), reenter=act)}
     if kind == "fn":
         name = rnd.choice(["newfn", "other", "min", "max", "f", "sum", "costarring", "liquid", "declinate", "macallums", "altarage", "zinke", "tierAa", "tierBB"])
         m.gfuncs[name] = b
         return {"op": "reg_fn", "name": name, "beh": b.to_json()}
     if kind == "prefix":
-        name = rnd.choice(["-", "neg", "!", "AND", "twice", "not", "OR", "+", "not"])
+        name = rnd.choice(["-", "neg", "!", "AND", "twice", "not", "OR", "+", "not", "~", "@@", "#h", "_op", "é"])
         m.tab.prefix.add(name)
         m.handlers[("prefix", name)] = b
         return {"op": "reg_prefix", "name": name, "beh": b.to_json()}
     if kind == "postfix":
-        name = rnd.choice(["++", "pct", "--", "bang"])
+        name = rnd.choice(["++", "pct", "--", "bang", "~~", "@p", "_pp", "°"])
         m.tab.postfix.add(name)
         m.handlers[("postfix", name)] = b
         return {"op": "reg_postfix", "name": name, "beh": b.to_json()}
-    name = rnd.choice(["+", "in", "=", "hi", "xor", "**", "hi", "xor", "<>", "-", "==", "&&", "||", "<", "*", "+="])
+    name = rnd.choice(["+", "in", "=", "hi", "xor", "**", "hi", "xor", "<>", "-", "==", "&&", "||", "<", "*", "+=", "~>", "@", "#", "_x_", "§"])
     mine = sorted(o for (kk, o) in m.handlers if kk == "infix" and o not in ref.BUILTIN_INFIX)
     if mine and rnd.random() < 0.4:
         # re-register one of the user's operators changing only the associativity or only the precedence
@@ -108,7 +116,7 @@ def use_program(m, rnd):
         op = rnd.choice(sorted({o for (kk, o) in m.handlers if kk == "postfix"} or {"++"}))
         return ["post", n(3), op]
     if k == "fn":
-        name = rnd.choice(sorted(set(m.gfuncs) | {"min", "f", "nosuchfn", "costarring", "liquid", "macallums", "zinke", "tierAa"}))
+        name = rnd.choice(sorted(set(m.gfuncs) | {"min", "f", "nosuchfn", "costarring", "liquid", "macallums", "zinke", "tierAa", "reent"}))
         return ["fn", name, [n(3), n(1)]]
     if k == "builtin":
         return rnd.choice([["un", "not", ["bool", True]], ["un", "not", ["bin", "in", n(3), ["list", [n(3)]]]], ["un", "!", ["bool", False]], ["un", "AND", ["list", [["bool", True]]]], ["un", "OR", ["list", [["bool", False]]]], ["un", "+", n(2)],
@@ -165,7 +173,7 @@ def history(rnd):
             steps.append({"op": "ctx", "id": cid, "vars": cvars, "fns": cfns})
             plan.append(None)
         fault = None
-        if rnd.random() < 0.2:
+        if rnd.random() < 0.2 and not getattr(m, "reent", False):
             # one handler invocation of this evaluation fails: nothing else may be called in its place
             fault = (rnd.randint(1, 2), "err")
         steps.append(dict({"op": "exec", "ctx": cid, "text": text, "want": "ae"}, **({"fault": {"k": fault[0], "kind": "err"}} if fault else {})))
